@@ -16,6 +16,10 @@ CHECKS = {
    text='For ~47k (quick) / ~600k (thorough) enumerated (expression, machine state) pairs - lifter operators incl. n-ary forms, depth-1 trees, rule templates, random trees; states binding each leaf to nothing / constants / a symbol / a compound - the evaluation result is proved equal to the substituted expression for all valuations, same width, and constant when every input is constant. eval_ExprOp/eval_ExprMem are not proved inductively.',
    note='Trusted: z3; IR denotation liftvc/den.py; independent interpreter specs/irsem.py for replays. Memory cells are bound at a free address symbol (overlap is C07). Known finding: named mul/div operators missing from the evaluator.',
    ref='5 C06'),
+ 'C13': dict(cat='other', tech='bounded run-time contracts on expr_simp (idempotence on fresh copies, permutation/re-association invariance), closed check of key_expr order laws, and sub-process runs under several PYTHONHASHSEED values',
+   text='Bounded: every permutation x re-association of operand multisets (size 2,3 complete over a pool incl. segmented memory, conditionals sharing arms, slices, composes; seeded 4-subsets) must simplify to the identical expression; every corpus tree simplified twice (second time on a fresh copy) must be a fixpoint; rendered simplifications, lifted semantics and dump_id/dump_mem must be byte-identical across 5 hash seeds. Seed independence is a property of processes, not expressible as a per-call contract.',
+   note='Bounded in operand pool, arity <= 4, shapes and seeds. key_expr order laws are decided completely on the pool (COMP).',
+   ref='5 C13'),
 }
 NOT_YET = {}
 ALL = ['C%02d' % i for i in range(1, 20)]
